@@ -6,7 +6,8 @@
     tables: Gen/MvTables.v (regenerated from the source on every run);
     spec: Deb822/MvSpec.v (the documented sub-field names, the documented text
     [spec_value]/[spec_dump], the property's domain [in_domain], which are what
-    MvCheck.holds evaluates); proofs: Deb822/MvProofs.v.
+    MvCheck.holds evaluates); proofs: Deb822/MvProofs.v; the bridge to the correspondence
+    check (theorem 5): Deb822/MvCheckProofs.v.
 
     "for every class and every field of the regenerated tables" is the hypothesis
     [lookup_exact (ascii_lower key) (table_of c) = Some order] with [c], [key] universally
@@ -14,7 +15,7 @@
     complete sweep of the (finite) regenerated tables (theorem 0). *)
 From Coq Require Import String.
 From Verif Require Import Lib.Base Lib.PyStr Lib.Dec Gen.PyChars Gen.MvTables
-  Deb822.Multivalued Deb822.MvSpec Deb822.MvProofs.
+  Deb822.Multivalued Deb822.MvSpec Deb822.MvProofs Deb822.MvCheck Deb822.MvCheckProofs.
 
 (** 0. The tie to the source.  The regenerated tables ARE the documented ones (field
        names in lower case, documented sub-field names in the documented order); every
@@ -197,6 +198,33 @@ Theorem C12_paragraph_reparse :
   forall c b p sp, in_domain c p = Some sp -> mv_init (table_of c) (spec_raw c b sp) = Ok p.
 Proof. exact reparse_in_domain. Qed.
 
+(** 5. The bridge to the correspondence check (Deb822/MvCheck.v): for every case — every
+       class, behaviour, build list, edit history, text, and every observation of every
+       constructor ([None] = malformed literal included) — an observation that agrees
+       with the model ([agree]) passes the property's judgement ([holds]).
+       The unconditional statement is false; [judged] (Deb822/MvCheckProofs.v) is the
+       computable side condition, a conjunction of three things [agree] does not determine:
+       (a) [faithful_dom]: outside it (a non-ASCII field / sub-field name) [agree] is [true]
+           by definition whatever was observed;
+       (b) [raw_distinct]: the observed [Deb822(text).items()] pairs — which [agree] takes as
+           the INPUT of its second stage and compares with nothing — have keys that are
+           distinct up to case (always so for a real Deb822 object);
+       (c) [reparse_judged]: in a build case whose last state is in the property's domain,
+           the re-parsed object is that state — the one conjunct of [holds_build] that
+           depends on how the dumped text was split into [raw], i.e. on C02's parser, which
+           this model does not contain (see 4. above).  [C12_agree_implies_holds_split]
+           replaces (c) by a condition on [raw] alone: it is the documented split
+           [spec_raw] of the documented text.
+       None of the three can be dropped ([C12_judged_needed]). *)
+Theorem C12_agree_implies_holds :
+  forall c, judged c = true -> agree c = true -> holds c = true.
+Proof. exact agree_implies_holds. Qed.
+
+Theorem C12_agree_implies_holds_split :
+  forall c, faithful_dom c = true -> raw_distinct c = true -> documented_split c = true ->
+    agree (Some c) = true -> holds (Some c) = true.
+Proof. exact agree_implies_holds_split. Qed.
+
 (** Non-vacuity.  A pdiff Index in which only 2 of the 14 structured fields are present
     (the situation of D8), sizes of different lengths, a plain field in between, mixed
     key spelling: it is in the domain, it is dumpable, the dump is the text shown (size
@@ -273,6 +301,42 @@ Example C12_nonvacuous_parsed_index :
      end.
 Proof. vm_compute. repeat split. Qed.
 
+(** The bridge is not vacuous, and its side condition is needed: a built pdiff Index with
+    an edit, observed exactly as the documented text and its documented split, is judged,
+    agrees and holds; and for each conjunct of [judged] an agreeing case that fails [holds]. *)
+Example C12_agree_implies_holds_nonvacuous :
+  let s := dec in
+  let p : para :=
+    [(s "SHA1-Current", Multi [[(s "SHA1", s "abc"); (s "size", s "12345")]]);
+     (s "Origin", Plain (s "Debian"))] in
+  let d0 := s "SHA1-Current:\00000a abc 12345\00000aOrigin: Debian\00000a" in
+  let d1 := s "SHA1-Current:\00000a abc 12345\00000a" in
+  let c := Some (mk PdiffIndex None false (Some p) [EDel (s "origin")] []
+                    (ObsFull [d0; d1] [(s "SHA1-Current", s "\00000a abc 12345")]
+                             [(s "SHA1-Current", Multi [[(s "SHA1", s "abc"); (s "size", s "12345")]])]
+                             (Ok d1))) in
+  judged c = true /\ agree c = true /\ holds c = true
+  /\ match c with Some k => documented_split k = true | None => False end.
+Proof. vm_compute. repeat split. Qed.
+
+Example C12_judged_needed :
+  let s := dec in
+  let v := s "\00000a a 1 n" in
+  let r := [(s "md5sum", s "a"); (s "size", s "1"); (s "name", s "n")] in
+  let ca := Some (mk Dsc None false None [] []
+                     (ObsFull [] [(s "\0000e9", s "x")] [(s "\0000e9", Plain (s "y"))] (Ok (s "")))) in
+  let cb := Some (mk Dsc None false None [] []
+                     (ObsFull [] [(s "Files", v); (s "files", v)]
+                              [(s "Files", Multi [r]); (s "files", Plain v)]
+                              (Ok (s "Files:\00000a a 1 n\00000afiles:\00000a a 1 n\00000a")))) in
+  let cc := Some (mk Dsc None false (Some [(s "Origin", Plain (s "Debian"))]) [] []
+                     (ObsFull [s "Origin: Debian\00000a"] [(s "Origin", s "Ubuntu")]
+                              [(s "Origin", Plain (s "Ubuntu"))] (Ok (s "Origin: Ubuntu\00000a")))) in
+  (agree ca = true /\ holds ca = false /\ judged ca = false)
+  /\ (agree cb = true /\ holds cb = false /\ judged cb = false)
+  /\ (agree cc = true /\ holds cc = false /\ judged cc = false).
+Proof. vm_compute. repeat split. Qed.
+
 Print Assumptions C12_tables_are_documented.
 Print Assumptions C12_tables_well_formed.
 Print Assumptions C12_ffl_kind_matches_tables.
@@ -294,3 +358,5 @@ Print Assumptions C12_dump_is_documented_text.
 Print Assumptions C12_dump_is_documented_text_parsed.
 Print Assumptions C12_domain_paragraph_is_spec.
 Print Assumptions C12_paragraph_reparse.
+Print Assumptions C12_agree_implies_holds.
+Print Assumptions C12_agree_implies_holds_split.
